@@ -223,7 +223,7 @@ fn cbrt_inputs(o: &Opts, rng: &mut Rng) -> Vec<f32> {
     let mut b = lo + rng.below(u64::from(stride)) as u32;
     while b <= hi {
         let x = f32::from_bits(b);
-        let t = cbrtf(x);
+        let t = crate::util::guard(|| cbrtf(x)).unwrap_or(f32::NAN);
         let r = f64::from(x).cbrt();
         let ulp = f64::from(f32::from_bits(t.to_bits() + 1)) - f64::from(t);
         let dev = ((f64::from(t) - r) / ulp).abs();
@@ -254,8 +254,8 @@ pub fn gen_c18(sh: &mut Shards, o: &Opts) -> serde_json::Value {
     for chunk in xs.chunks(96) {
         let mut s = String::from("\"ev\":\"cbrt\",\"s\":");
         list(&mut s, chunk, |o2, x| {
-            let t = cbrtf(*x);
-            let tn = cbrtf(-*x);
+            let t = crate::util::guard(|| cbrtf(*x)).unwrap_or(f32::NAN);
+            let tn = crate::util::guard(|| cbrtf(-*x)).unwrap_or(f32::NAN);
             o2.push('[');
             me32(o2, *x);
             o2.push(',');
@@ -299,7 +299,7 @@ pub fn gen_c18(sh: &mut Shards, o: &Opts) -> serde_json::Value {
     for chunk in ps.chunks(96) {
         let mut s = String::from("\"ev\":\"pow\",\"s\":");
         list(&mut s, chunk, |o2, (x, y)| {
-            let r = powf(*x, *y);
+            let r = crate::util::guard(|| powf(*x, *y)).unwrap_or(f32::NAN);
             o2.push('[');
             me32(o2, *x);
             o2.push(',');
@@ -324,7 +324,7 @@ pub fn gen_c18(sh: &mut Shards, o: &Opts) -> serde_json::Value {
     for chunk in es.chunks(96) {
         let mut s = String::from("\"ev\":\"exp\",\"s\":");
         list(&mut s, chunk, |o2, x| {
-            let r = expf(*x);
+            let r = crate::util::guard(|| expf(*x)).unwrap_or(f32::NAN);
             o2.push('[');
             fx32(o2, *x);
             o2.push(',');
